@@ -570,6 +570,7 @@ namespace hgraph::ts_data_plan_factory_detail
                     value_published_.set(result.slot);
                     added_.set(result.slot);
                 }
+                restore_modified_mark(result.slot, modified_time);
                 (void)key_set_tracking_.record_modified(modified_time);
                 return mutation_result(result.slot, result.constructed);
             }
@@ -597,6 +598,7 @@ namespace hgraph::ts_data_plan_factory_detail
                     value_published_.set(result.slot);
                     added_.set(result.slot);
                 }
+                restore_modified_mark(result.slot, modified_time);
                 (void)key_set_tracking_.record_modified(modified_time);
                 return mutation_result(result.slot, result.constructed);
             }
@@ -709,6 +711,26 @@ namespace hgraph::ts_data_plan_factory_detail
                 if (modified_time == MIN_DT)
                 {
                     throw std::invalid_argument("TSD TSData mutation requires a concrete evaluation time");
+                }
+            }
+
+            /**
+             * Re-creating a key that was erased earlier in this cycle
+             * resurrects its slot together with the child it had. If that
+             * child was already written in this cycle, ``remove_key`` dropped
+             * its modified mark and the child will not notify again (its next
+             * write is not the first for this evaluation time), so the key
+             * would carry a new value without appearing in the modified
+             * items / delta. Restore the mark for a published slot whose
+             * child was modified at ``modified_time``.
+             */
+            void restore_modified_mark(std::size_t slot, DateTime modified_time)
+            {
+                if (!slot_value_published(slot)) { return; }
+                const auto &ops = element_type_.ops_ref();
+                if (ops.tracking_impl(ops.context, values_.value_memory(slot))->last_modified_time == modified_time)
+                {
+                    modified_.set(slot);
                 }
             }
 
